@@ -141,7 +141,7 @@ var props = map[string]Prop{
 			{Name: "random", Test: "TestC01Random", Shards: [2]int{4, 16}, Checks: [2]int{1500, 40000}, SeedOffset: 1, Timeout: [2]time.Duration{10 * min, 60 * min}},
 			{Name: "positions", Test: "TestC01Positions", Shards: [2]int{8, 16}, Timeout: [2]time.Duration{10 * min, 30 * min}},
 		},
-		Rule: "exhaustive: all expression trees with <= 3 operator nodes over 27 constructors (thorough: also all trees with 4 operator nodes over 12 representative constructors) (15 binary operators, in, index, both signs, seven built-ins, one pass-through function) in the where position, once with the parentheses the grammar needs and once with every operand parenthesised; positions: all trees with <= 2 operator nodes in twelve positions (project, extend named/unnamed, summarize key, sort, top key, where, let, four let-use sites) with identifier, string, number and mixed leaves (eight leaf patterns); random: rapid-generated trees to depth 5 (thorough 8) with every literal spelling, quoted and qualified names, calls of all built-ins and pass-through names, explicit required and redundant parentheses, placed in sixteen positions (where, project, extend named/unnamed, summarize aggregate and key, sort, take, top count and key, join on, let, and four let-use sites: the bound name as an operand, renamed by a second let, beside a quoted column of the same name), one in three re-checked inside two more redundant parentheses. Oracle: Compile (under a CPU watchdog) must return; the emitted SQL must parse; the clause holding the translation is read with ClickHouse's operator precedence and evaluated on 25+ row valuations (all-NULL, single-NULL, mixed ints/strings) and must equal the value of the generator's tree under PQL semantics (==/!= never NULL, =~/!~ on lower(), built-ins by their documented meaning, any other function an injective function of its name and argument values). Non-trivial = >= 2 operator nodes or an explicit parenthesis; distinct = position x canonical tree.",
+		Rule: "exhaustive: all expression trees with <= 3 operator nodes over 27 constructors (thorough: also all trees with 4 operator nodes over 12 representative constructors) (15 binary operators, in, index, both signs, seven built-ins, one pass-through function) in the where position, once with the parentheses the grammar needs and once with every operand parenthesised; positions: all trees with <= 2 operator nodes in thirteen positions (project, extend named/unnamed, summarize key, sort, top key, where, let, five let-use sites) with identifier, string, number and mixed leaves (eight leaf patterns); random: rapid-generated trees to depth 5 (thorough 8) with every literal spelling, quoted and qualified names, calls of all built-ins and pass-through names, explicit required and redundant parentheses, placed in seventeen positions (where, project, extend named/unnamed, summarize aggregate and key, sort, take, top count and key, join on, let, and five let-use sites: the bound name as an operand, under a unary minus, renamed by a second let, beside a quoted column of the same name), one in three re-checked inside two more redundant parentheses. Oracle: Compile (under a CPU watchdog) must return; the emitted SQL must parse; the clause holding the translation is read with ClickHouse's operator precedence and evaluated on 25+ row valuations (all-NULL, single-NULL, mixed ints/strings) and must equal the value of the generator's tree under PQL semantics (==/!= never NULL, =~/!~ on lower(), built-ins by their documented meaning, any other function an injective function of its name and argument values). Non-trivial = >= 2 operator nodes or an explicit parenthesis; distinct = position x canonical tree.",
 		Assumptions: []string{
 			"SQL is read with ClickHouse's precedence table (OR < AND < NOT < IS NULL < comparison/IN < || < + - < * / % < unary sign < [ ])",
 			"values the property is silent about are don't-care and skipped: =~/!~ with a NULL operand, strcat with a NULL argument",
